@@ -10,6 +10,26 @@ CHECKS = {
          "Generated finite models x {bfs,dfs,on-demand} x thread counts; the evaluated multiset, every visitor path and the counters are compared with an independent reachability oracle. Bounded random search: shows agreement on thousands of graphs incl. all shape classes, cannot show absence.",
          "Trusted: the harness's reachability oracle (40 lines), the graph interpreter, proptest. Assumes no 64-bit fingerprint collision at these sizes.",
          "property-based testing (proptest) with a reference-model oracle", "DESIGN.md section 5 / C01"),
+ "C02": ("exploration",
+         "Generated models with up to 5 properties x exhaustive strategies x threads; discovered always/sometimes names, assert_properties and is_done compared in both directions with witness sets from an independent reachability oracle.",
+         "Trusted: reachability oracle, graph interpreter, proptest. Eventually verdicts are taken as reported (C11 decides them).",
+         "property-based testing (proptest) with a reference-model oracle", "DESIGN.md section 5 / C02"),
+ "C03": ("exploration",
+         "Generated models x {bfs,dfs,on-demand,simulation} x threads x all six finish conditions; every path from discoveries() is re-validated step by step against the model and the per-expectation end condition by a validator that shares no code with Path::from_fingerprints.",
+         "Trusted: the path validator and graph interpreter. Only results after the workers finished are examined.",
+         "property-based testing (proptest) with a validity-predicate oracle", "DESIGN.md section 5 / C03"),
+ "C11": ("exploration",
+         "Generated models with eventually-properties: soundness on arbitrary shapes under all strategies (reported => a maximal avoiding path exists), exactness on generated forests under the exhaustive strategies.",
+         "Trusted: the 'maximal path avoiding the condition' oracle (dead end or cycle in the avoiding subgraph) and the forest test.",
+         "property-based testing (proptest) with a reference-model oracle", "DESIGN.md section 5 / C11"),
+ "C12": ("exploration",
+         "Generated configurations of finish_when / target_state_count / target_max_depth / seed / timeout against literal readings of the controls; early stops must be explained by a configured reason; timing checks in child processes in the noise-proof direction only.",
+         "Trusted: reachability oracle; OS scheduling within the margins stated in DESIGN.md 2.5.",
+         "property-based testing (proptest): metamorphic/differential relations on run controls", "DESIGN.md section 5 / C12"),
+ "C13": ("exploration",
+         "Generated models checked by single-threaded BFS with a recording visitor; evaluation order and the length of every reported always/sometimes path compared with independently computed BFS distances.",
+         "Trusted: BFS distance oracle, graph interpreter.",
+         "property-based testing (proptest) with a reference-model oracle", "DESIGN.md section 5 / C13"),
 }
 
 def main():
